@@ -220,7 +220,7 @@ func main() {
 		},
 		Rule:        seqRule + " Concurrent part: 2-3 threads calling Process / FlushAll / Close on one filter with a pending group, every schedule within the preemption bound under the race detector: no panic, race or deadlock, no event composed twice, none lost while a Broker is configured.",
 		Assumptions: []string{"the clock is the filter's NowFunc, owned by the harness", "depth 6 (quick) / 7 (thorough), 3 ids; concurrent: preemption bound 2/1 (quick) 3/2 (thorough)"},
-		QuickBudget: 150 * time.Second, ThoroughBudget: 45 * time.Minute,
+		QuickBudget: 300 * time.Second, ThoroughBudget: 45 * time.Minute,
 	})
 }
 
@@ -230,5 +230,5 @@ func unusedMain() {
 	hk.Main(seqmc.Check(harness,
 		"BFS over all histories up to the depth bound of {event(id in a,b,c; flush or not), non-Gateable event, event without id, clock +1ms, clock +Expiration+1ms, FlushAll, Close} on the real gated.Filter, for Broker set / nil x {no failure, ComposeFrom failing at call k, Sender failing at call k, ComposeFrom returning a Gateable at call k}. Oracle from observations only (ComposeFrom arguments, Process results, Sender receipts, and a side-effect-free probe flush per id on a replayed copy): every composition is handed exactly the events received for that id since its group opened, in arrival order, no event twice, none that was rejected; composites leave by the right door; a group may vanish without composition only with no Broker at expiry / FlushAll / Close; non-Gateable events pass pointer-identical; empty ids are rejected; nothing Gateable reaches the Broker.",
 		[]string{"the clock is the filter's NowFunc, owned by the harness", "depth 6 (quick) / 7 (thorough), 3 ids"},
-		150*time.Second, 45*time.Minute))
+		300*time.Second, 45*time.Minute))
 }
